@@ -43,6 +43,60 @@ INT_ACC = re.compile(r"^serde_json::Number::(as_i64|as_u64|is_i64|is_u64)$|^core
 DEFAULTERS = re.compile(r"^std::option::Option::<T>::(unwrap_or|unwrap_or_else|unwrap_or_default|map_or|map_or_else|or|or_else)$|Iterator(>)?::(filter_map|flatten|flat_map)$")
 
 
+def _live_under_constants(facts, u, root):
+    """Siblings merged behind one helper that is told which operation it is by a payload-free enum constant
+    (`FloatReduction::Sum.reduce(items)`): the helper's code is read under the constants bound at the calls that lead to it
+    from this operator.  Returns {body key: blocks reachable under those constants} for the helpers so specialised (a
+    helper reached with two different constants, or with none, is not in the result and is read whole)."""
+    keys = {x.key for x in u.bodies}
+    bound = {}        # callee key -> {param index -> set of variants}
+    todo, seen = [(root.key, {})], set()
+    while todo:
+        k, env = todo.pop()
+        sig = (k, tuple(sorted(env.items())))
+        if sig in seen:
+            continue
+        seen.add(sig)
+        bb = facts.body(k)
+        if bb is None:
+            continue
+        blocks = None
+        if env:
+            blocks, _ = bb.specialize(lambda e, a, _env=env: _env.get(strip_refs(e)[1]) if (strip_refs(e)[0] == "arg" and strip_refs(e)[1] in _env) else None)
+        for bi in (sorted(blocks) if blocks is not None else range(len(bb.blocks))):
+            t = bb.blocks[bi]["term"]
+            if t["k"] != "Call":
+                continue
+            c = callee_of(t)
+            if not c or not c.get("local") or c["key"] not in keys or c["key"] == k:
+                continue
+            cenv = {}
+            for i, a in enumerate(t["args"]):
+                x = strip_refs(bb.trace(a))
+                if x[0] == "agg" and x[1].get("agg") == "Adt" and not x[2] and x[1].get("variant") and facts.adts.get(x[1].get("adt"), {}).get("kind") == "enum":
+                    cenv[i + 1] = x[1]["variant"]
+                elif x[0] == "arg" and x[1] in env:
+                    cenv[i + 1] = env[x[1]]
+            for i_, v_ in cenv.items():
+                bound.setdefault(c["key"], {}).setdefault(i_, set()).add(v_)
+            if not cenv:
+                bound.setdefault(c["key"], {}).setdefault(0, set()).add("?")
+            todo.append((c["key"], cenv))
+        for cb in [x for x in u.bodies if x.kind == "closure" and x.key.startswith(k + "::{closure#")]:
+            todo.append((cb.key, {}))
+    live = {}
+    for k, per in bound.items():
+        if 0 in per:
+            continue
+        env = {i_: list(vs)[0] for i_, vs in per.items() if len(vs) == 1}
+        if len(env) != len(per) or not env:
+            continue
+        bb = facts.body(k)
+        blocks, _ = bb.specialize(lambda e, a, _env=env: _env.get(strip_refs(e)[1]) if (strip_refs(e)[0] == "arg" and strip_refs(e)[1] in _env) else None)
+        live[k] = set(blocks)
+    return live
+
+
 def run(ctx):
     ctx.explanation = __doc__
     ctx.rule = "instances = facts of the result conversion, 7 operators × (return path, operation, routing, error discipline); non-trivial = dominance, constant reading, reach scans"
@@ -154,8 +208,11 @@ def run(ctx):
                     if st["k"] == "Assign" and st["rv"]["k"] == "Cast" and st["rv"]["cast"] in ("IntToFloat", "FloatToInt") and not (st["rv"]["cast"] == "IntToFloat" and op_const(st["rv"]["op"])):
                         ctx.fail("K3.double-only", "%s|cast %s" % (op, st["rv"]["cast"]), "%s converts between integers and floats (%s)" % (op, st["rv"]["cast"]), where=bb.where(bi, si), fn=bb.key)
             fops = []
+            live = _live_under_constants(facts, u, b)
             for bb in u.bodies:
                 for bi, si, st in bb.stmts():
+                    if bb.key in live and bi not in live[bb.key]:
+                        continue        # not reachable under the constants this operator binds (`FloatReduction::Sum.reduce(..)`)
                     if st["k"] == "Assign" and st["rv"]["k"] in ("BinaryOp", "UnaryOp") and st["rv"].get("opty") == "f64" and st["rv"]["op"] in ("Add", "Sub", "Mul", "Div", "Rem", "Neg", "Lt", "Gt", "Le", "Ge"):
                         fops.append((bb, bi, si, st["rv"]))
             want = {"+": {"Add"}, "*": {"Mul"}, "/": {"Div"}, "%": {"Rem"}, "-": {"Sub", "Mul"}, "min": {"Lt"}, "max": {"Gt"}}[op]
@@ -185,6 +242,17 @@ def run(ctx):
                         ctx.check(not early, "K3.fold-in-order", "%s: the accumulation loop visits every operand (leaves only at the end or with an error) (%s)" % (op, cfg),
                                   "%s leaves its accumulation loop early on a path that still returns a number (%s): the remaining operands are neither converted nor combined — a non-numeric operand after that point is no error" % (op, [s.body.where(u_) for u_, _ in early]), where=s.body.where(early[0][0]) if early else s.where(), fn=s.body.key, nontrivial=True)
                     sv = accum.seed_value(s.seed)
+                    if sv is None:
+                        # the seed is what a private helper returns under the constant this operator binds (`self.identity()`)
+                        sx = strip_refs(s.seed)
+                        live_ = _live_under_constants(facts, u, b)
+                        if sx[0] == "call" and sx[1] and sx[1].get("local") and sx[1]["key"] in live_:
+                            hb_ = facts.body(sx[1]["key"])
+                            with hb_.restricted(live_[sx[1]["key"]]):
+                                sv = accum.seed_value(hb_.trace(0))
+                        if sv is None:
+                            ctx.unread("K3.identity", "%s starts from its identity (%s)" % (op, cfg), "%s's accumulation starts from %s, which is not read as a constant" % (op, show_expr(sx)[:80]), where=s.where(), fn=s.body.key)
+                            continue
                     want_seed = {"+": 0.0, "*": 1.0, "min": ("std::f64::INFINITY", "std::f64::<impl f64>::INFINITY", float("inf")), "max": ("std::f64::NEG_INFINITY", "std::f64::<impl f64>::NEG_INFINITY", float("-inf"))}[op]
                     good = sv == want_seed if not isinstance(want_seed, tuple) else sv in want_seed
                     ctx.check(good, "K3.identity", "%s starts from its identity (%s)" % (op, cfg), "%s's accumulation starts from %s" % (op, sv), where=s.where(), fn=s.body.key, nontrivial=True, sample={"operator": op, "seed": str(sv), "form": s.form})
